@@ -113,7 +113,7 @@ class C08(Prop):
         await self.rig.close()
 
     def cases(self, tier, seed, shard, nshards):
-        n = {"quick": 4_800, "thorough": 48_000}[tier]
+        n = {"quick": 4_800, "thorough": 240_000}[tier]
         for i in range(shard, n, nshards):
             yield {"i": i, "seed": seed}
 
